@@ -15,6 +15,9 @@ Definition run (req : sexp) : sexp :=
   | Li [At "contract"; x] => run_contract x
   | Li [At "files"; x] => run_files x
   | Li [At "ssmvalid"; x] => run_ssmvalid x
+  | Li [At "ssmconstrain"; x] => run_ssmconstrain x
+  | Li [At "ssmstep"; x] => run_ssmstep x
+  | Li [At "ssmtriple"; x] => run_ssmtriple x
   | Li [At "C13"; x] => run_C13 x
   | Li [At "sys"; x] => run_sys x
   | Li [At "des"; x] => run_des x
